@@ -110,6 +110,17 @@ class FoldUnit:
             if kind == 'pin':            # value produced by instruction named n is the constant c
                 k = defline(h['n'])
                 replace_uses(h['n'], str(h['value']), {k})
+            elif kind == 'site':         # no hypothesis: only carries the site marker
+                pass
+            elif kind == 'pinexpr':      # uses of n see OP(a, b) over other SSA values / constants (a relational hypothesis on state)
+                k = defline(h['n'])
+                hcount[0] += 1
+                nn = '%%verif.e%d' % hcount[0]
+                replace_uses(h['n'], nn, {k})
+                k2 = k + 1
+                while ' = phi ' in lines[k2]:
+                    k2 += 1
+                lines.insert(k2, '  %s = %s %s %s, %s' % (nn, h['op'], h['ty'], h['a'], h['b']))
             elif kind == 'mask':         # uses see (n & mask)
                 k = defline(h['n'])
                 hcount[0] += 1
@@ -374,9 +385,20 @@ def expect_call_dominates_rets(F, callee, argidx=None, argpred=None):
     return _call_dominates_rets(F, callee, argidx, argpred)
 
 
-def _call_on_all_paths_from_site(F, callee, argidx, argpred):
+def expect_on_all_paths(F, pred, what):
+    """an instruction satisfying pred(F, inst) lies on every path from the hypothesis site to a ret"""
+    if after_site(F) is None:
+        raise AnalysisBroken('expect_on_all_paths needs a site marker')
+    return _call_on_all_paths_from_site(F, what, None, None, pred)
+
+
+def _call_on_all_paths_from_site(F, callee, argidx, argpred, ipred=None):
     good = set()
     for i in _reach_insts(F):
+        if ipred is not None:
+            if i['op'] != 'dbgvalue' and ipred(F, i):
+                good.add(i['id'])
+            continue
         if i['op'] == 'call' and i.get('callee') == callee:
             if argidx is not None:
                 a = i['ops'][argidx]
@@ -386,6 +408,8 @@ def _call_on_all_paths_from_site(F, callee, argidx, argpred):
     bid = {b['id']: b for b in F.blocks}
     # walk from each site marker; a path is cut when it meets a good call
     ms = [i for i in _reach_insts(F) if i['op'] == 'call' and i.get('callee') == 'verif.site']
+    if not ms:
+        return True, 'the site is unreachable under the hypothesis'
     seen = set()
     st = []
 
